@@ -168,6 +168,18 @@ end Stm
 @[inline] def goMake {β : Type} (z : β) (n : Int) : R (List β) :=
   if n < 0 then .error (.panic "makeslice: len out of range") else .ok (List.replicate n.toNat z)
 
+/-- `*p` / `p.f` through a pointer that may be nil. -/
+@[inline] def goDeref {β : Type} (p : Option β) : R β :=
+  match p with
+  | some x => .ok x
+  | none => .error (.panic "nil pointer dereference")
+
+/-- `reflect.DeepEqual` on two `[]int`.  Go distinguishes a nil slice from an empty non-nil one, which
+    lists do not: the one ambiguous case (both empty) is outside the translated fragment (model panic). -/
+@[inline] def goDeepEqualInts (a b : List Int) : R Bool :=
+  if a = [] ∧ b = [] then .error (.panic "reflect.DeepEqual: nil vs empty slice is not modelled")
+  else .ok (decide (a = b))
+
 /-- `float64(i)` for an `int` (exact for |i| < 2^53 at Float). -/
 @[inline] def goFloatOfInt {α : Type} [Scalar α] (i : Int) : α :=
   if i < 0 then Scalar.neg (Scalar.ofNat (-i).toNat) else Scalar.ofNat i.toNat
